@@ -1,7 +1,7 @@
 (* AlgoTotal.v — parts of the engine that never leave the fragment: from the invariant the model answers ROk. *)
 From Coq Require Import NArith List Bool Arith Lia.
 From CS Require Import Sx Str PathModel PathLaws StateModel StateProofs ProvModel ProvProofs EventLaws
-     AlgoModel AlgoCheck AlgoState AlgoProv AlgoPath AlgoInv AlgoIntake AlgoSync AlgoLatest AlgoFinish AlgoSyncEntry AlgoStep.
+     AlgoModel AlgoCheck AlgoState AlgoProv AlgoPath AlgoInv AlgoInit AlgoIntake AlgoSync AlgoLatest AlgoFinish AlgoSyncEntry AlgoStep AlgoUser.
 Import ListNotations.
 Local Open Scope N_scope.
 
@@ -159,7 +159,8 @@ Qed.
    SyncState.change with its provider calls, the pick, pre_sync - always answers *)
 Theorem sync_step_total_up_to_sync g w order c :
   Inv g w -> NoTmp w -> sync_step w order = OutOfFragment c ->
-  exists w3 e en3, SCtx g w3 e en3 /\ e_ign en3 = INone /\ sync_entry w3 e = OutOfFragment c.
+  exists w3 e en3, SCtx g w3 e en3 /\ e_ign en3 = INone /\ notmp w3 e /\ maxchg en3 <= now (w_st w3) /\
+                   sync_entry w3 e = OutOfFragment c.
 Proof.
   intros I T H. unfold sync_step in H.
   destruct (cset (w_st w)) as [|c0 cr] eqn:Ecs; [discriminate|]. rewrite <- Ecs in H.
@@ -189,5 +190,561 @@ Proof.
   destruct done; [discriminate|].
   destruct Hres as (en3 & SC3 & Hi3 & Hm3).
   destruct (sync_entry w3 e) as [[w4 cs4]|c'] eqn:Ese; [discriminate|]. cbn [rbind] in H. injection H as <-.
-  exists w3, e, en3. auto.
+  exists w3, e, en3. auto 10.
+Qed.
+
+(* ------------------------------------------------------------------ the leaves of sync(): which OutOfFragment answers are left *)
+(* The proofs replay the preservation proofs of AlgoSyncEntry.v on the hypothesis "the call answers OutOfFragment c". *)
+Definition G_CREATE : list N := [X_CREATE_EXISTS].
+
+Lemma verify_parent_root g w t n : Inv g w -> ProvModel.verify_parent (prov_of w t) [root_name t; n] = None.
+Proof.
+  intros I. pose proof (i_pwf _ _ _ I t) as W.
+  destruct (sh_root1 _ _ (i_shape _ _ _ I t)) as (r1 & H1 & L1 & P1 & K1). unfold obj_at in H1.
+  pose proof (info_path_live _ 1 r1 W H1 L1) as Hi. rewrite P1 in Hi.
+  unfold ProvModel.verify_parent. cbn [removelast]. rewrite Hi. unfold ProvModel.info_of. cbn [ProvModel.i_kind]. rewrite K1. reflexivity.
+Qed.
+
+(* create() on a well-formed id-style provider whose parent folder exists can only refuse with "exists" *)
+Lemma create_err p q d pv er : PWF p -> ProvModel.verify_parent p q = None -> ProvModel.create p q d = (pv, ProvModel.Err er) -> er = ProvModel.EExists.
+Proof.
+  intros W Hvp H. unfold ProvModel.create in H. rewrite (no_forbidden _ q (pw_noforbid p W)) in H.
+  destruct (ProvModel.info_path p q); [injection H as _ <-; reflexivity|]. rewrite Hvp in H.
+  destruct (ProvModel.alloc p q ProvModel.KFile d). discriminate.
+Qed.
+Definition G_DELETE : list N := [X_DELETE_OTHER].
+
+Lemma create_total g w e en s k ob cs n c :
+  SCtx g w e en -> e_ign en = INone ->
+  s_oid (gs en s) = Some (ostr_k k) -> obj_at w s k = Some ob -> ProvModel.o_exists ob = true ->
+  g_get k (g_of g s) = Some cs -> s_oid (gs en (negb s)) = None ->
+  ProvModel.o_path ob = [root_name s; n] -> name_ok n = true ->
+  s_path (gs en s) = Some (pstr [root_name s; n]) -> tchg (s_chg (gs en s)) = true ->
+  x_tfile (getx w e s) = None ->
+  create_synced (setx (tname_world w e s en (pstr [root_name s; n])) e s (set_tfile (ProvModel.o_data ob))) e s
+                (pstr [root_name (negb s); n]) = OutOfFragment c ->
+  In c G_CREATE.
+Proof.
+  intros [I He Hn Hr] Hign Ho Hob Hl Hg Hot Hpath Hnok Hsp Hc Htf H.
+  set (t := negb s) in *. set (p := [root_name t; n]).
+  pose proof (i_cfg _ _ _ I) as Hcfg. pose proof (i_ents _ _ _ I e en He Hn) as EO.
+  destruct (tname_world_facts w e s en (pstr [root_name s; n]) Htf) as (TA & TB & TC & TD & TF & TG & TH).
+  set (w0 := tname_world w e s en (pstr [root_name s; n])) in *.
+  set (w1 := setx w0 e s (set_tfile (ProvModel.o_data ob))) in *.
+  assert (H1cfg: w_cfg w1 = cfg_std 1) by (unfold w1; rewrite w_cfg_setx; congruence).
+  assert (H1st: w_st w1 = w_st w) by (unfold w1; rewrite w_st_setx; exact TB).
+  assert (H1prov: forall sd0, prov_of w1 sd0 = prov_of w sd0) by (intros; unfold w1; rewrite prov_of_setx; apply TC).
+  unfold create_synced in H.
+  assert (Htd: temp_data w1 e s = ROk (ProvModel.o_data ob)) by (unfold temp_data, w1; rewrite getx_setx_same; reflexivity).
+  rewrite Htd in H. cbn [rbind] in H.
+  assert (Hsp2: spath (pstr [root_name t; n]) = p).
+  { apply spath_pstr. constructor; [apply root_name_ok|]. constructor; [exact Hnok|constructor]. }
+  fold t in H. rewrite Hsp2 in H. rewrite (H1prov t) in H.
+  pose proof (i_pwf _ _ _ I t) as HWt.
+  destruct (ProvModel.create (prov_of w t) p (ProvModel.o_data ob)) as [pv r] eqn:Ecr.
+  destruct r as [i|er]; [|rewrite (create_err _ _ _ _ _ HWt (verify_parent_root g w t n I) Ecr) in H; injection H as <-; left; reflexivity].
+  destruct (create_inv _ _ _ _ _ HWt Ecr) as (Hi & Hheap & Hlog & Hcur & Hpcfg & HWv).
+  set (k' := length (ProvModel.p_heap (prov_of w t))) in *.
+  set (o' := new_obj (prov_of w t) p ProvModel.KFile (ProvModel.o_data ob)) in *.
+  set (w2 := with_prov w1 t pv) in *.
+  assert (H2cfg: w_cfg w2 = cfg_std 1) by (unfold w2, with_prov; destruct t; exact H1cfg).
+  assert (H2st: w_st w2 = w_st w) by (unfold w2, with_prov; destruct t; exact H1st).
+  assert (H2tape: tape (w_st w2) = []) by (rewrite H2st; apply (i_tape _ _ _ I)).
+  assert (H2n: nth_error (ents (w_st w2)) e = Some en) by (rewrite H2st; exact Hn).
+  unfold get_e, lift, get_ent in H. rewrite H2n in H. cbn [rbind] in H.
+  assert (Hid: ProvModel.i_data i = Some (ProvModel.o_data ob)) by (rewrite Hi; reflexivity).
+  assert (Hip: ProvModel.i_path i = p) by (rewrite Hi; reflexivity).
+  assert (Hio: ProvModel.i_oid i = kid_of k') by (rewrite Hi; reflexivity).
+  rewrite Hid, Hip, Hio in H. rewrite kstr_kid in H.
+  (* the four marker writes *)
+  destruct (plain_w w2 H2tape e t (fun y => w_shash y (Some (ProvModel.o_data ob))) en H2n) as (wa & Ha & Wa); [intros; split; reflexivity|].
+  rewrite Ha in H. cbn [rbind] in H. set (ena := ss en t (w_shash (gs en t) (Some (ProvModel.o_data ob)))) in *.
+  pose proof (weff_nth _ _ _ _ _ _ Wa H2n) as Hna. assert (Hta: tape (w_st wa) = []) by (destruct Wa as (_ & _ & _ & _ & _ & T); exact T).
+  destruct (plain_w wa Hta e t (fun y => w_spath y (Some (pstr p))) ena Hna) as (wb & Hb & Wb); [intros; split; reflexivity|].
+  rewrite Hb in H. cbn [rbind] in H. set (enb := ss ena t (w_spath (gs ena t) (Some (pstr p)))) in *.
+  pose proof (weff_nth _ _ _ _ _ _ Wb Hna) as Hnb. assert (Htb: tape (w_st wb) = []) by (destruct Wb as (_ & _ & _ & _ & _ & T); exact T).
+  destruct (plain_w wb Htb e s (fun y => w_shash y (s_hash (gs en s))) enb Hnb) as (wc & Hcc & Wc); [intros; split; reflexivity|].
+  rewrite Hcc in H. cbn [rbind] in H. set (enc := ss enb s (w_shash (gs enb s) (s_hash (gs en s)))) in *.
+  pose proof (weff_nth _ _ _ _ _ _ Wc Hnb) as Hnc. assert (Htc: tape (w_st wc) = []) by (destruct Wc as (_ & _ & _ & _ & _ & T); exact T).
+  destruct (plain_w wc Htc e s (fun y => w_spath y (s_path (gs en s))) enc Hnc) as (wd & Hd & Wd); [intros; split; reflexivity|].
+  rewrite Hd in H. cbn [rbind] in H. set (end_ := ss enc s (w_spath (gs enc s) (s_path (gs en s)))) in *.
+  pose proof (weff_nth _ _ _ _ _ _ Wd Hnc) as Hnd. assert (Htd': tape (w_st wd) = []) by (destruct Wd as (_ & _ & _ & _ & _ & T); exact T).
+  pose proof (weff_trans _ _ _ _ _ _ _ _ (weff_trans _ _ _ _ _ _ _ _ (weff_trans _ _ _ _ _ _ _ _ Wa Wb) Wc) Wd) as Wad. cbn [mcomp] in Wad.
+  assert (Hdcfg: w_cfg wd = cfg_std 1) by (destruct Wad as (A & _); congruence).
+  assert (HdI: IdxJ (w_st wd)) by (destruct Wad as (_ & _ & _ & _ & (_ & _ & _ & _ & J) & _); apply J; rewrite H2st; apply (i_idx _ _ _ I)).
+  (* side t of the entry is still empty *)
+  assert (Hst: t <> s) by (unfold t; destruct s; discriminate).
+  assert (Hgt: gs end_ t = w_spath (w_shash (gs en t) (Some (ProvModel.o_data ob))) (Some (pstr p))).
+  { unfold end_, enc, enb, ena. unfold t in *. destruct s; simpl; reflexivity. }
+  assert (Hgs: gs end_ s = w_spath (w_shash (gs en s) (s_hash (gs en s))) (s_path (gs en s))).
+  { unfold end_, enc, enb, ena. unfold t in *. destruct s; simpl; reflexivity. }
+  destruct (so_empty _ _ _ _ _ _ (eo_side _ _ _ _ _ EO t) Hot) as (Etc & Etp & Eth & Etsp & Etsh).
+  assert (Hfresh: al_get (ostr_k k') (oids (w_st wd) t) = None).
+  { destruct (al_get (ostr_k k') (oids (w_st wd) t)) as [x|] eqn:Ea; [|reflexivity]. exfalso.
+    destruct (idx_lookup _ _ _ _ HdI Ea) as (xn & Hxn & Hox).
+    assert (Hx': exists xn0, nth_error (ents (w_st w)) x = Some xn0 /\ s_oid (gs xn0 t) = Some (ostr_k k')).
+    { destruct Wad as (_ & _ & _ & _ & (SA & _) & _). rewrite SA, H2st in Hxn. destruct (Nat.eq_dec x e) as [Hxe|Hxe].
+      - subst x. rewrite (nth_list_upd_eq _ _ _ _ Hn) in Hxn. injection Hxn as <-. rewrite Hgt in Hox. cbn [w_spath w_shash s_oid] in Hox. rewrite Hot in Hox. discriminate.
+      - rewrite nth_list_upd_neq in Hxn by congruence. eauto. }
+    destruct Hx' as (xn0 & Hxn0 & Hox0).
+    assert (Hx2: (2 <= x)%nat) by (apply (entry_ge2 _ _ _ _ _ _ _ I Hxn0 Hox0); unfold k'; destruct (sh_root1 _ _ (i_shape _ _ _ I t)) as (r1 & Hr1 & _); unfold obj_at in Hr1;
+                                   assert (1 < length (ProvModel.p_heap (prov_of w t)))%nat by (apply nth_error_Some; congruence); lia).
+    destruct (so_full _ _ _ _ _ _ (eo_side _ _ _ _ _ (i_ents _ _ _ I x xn0 Hx2 Hxn0) t) _ Hox0) as (k1 & ob1 & Hk1 & Hob1 & _).
+    apply ostr_k_inj in Hk1. subst k1. unfold obj_at in Hob1. assert (Hlt: (k' < length (ProvModel.p_heap (prov_of w t)))%nat) by (apply nth_error_Some; congruence). unfold k' in Hlt. lia. }
+  assert (Hnpp: nps (mk_conv true) (pstr p) = pstr p).
+  { apply nps_pstr. constructor; [apply root_name_ok|]. constructor; [exact Hnok|constructor]. }
+  destruct (upd_entry_create_w wd e t (ostr_k k') (pstr p) (Some (ProvModel.o_data ob)) end_ Hdcfg Htd' HdI Hnd)
+    as (w4 & H4 & W4).
+  { rewrite Hgt. cbn [w_spath w_shash s_oid]. exact Hot. }
+  { rewrite Hgt. cbn [w_spath w_shash s_path]. exact Etp. }
+  { exact Hfresh. }
+  { apply tstr_ostr. }
+  { apply tstr_pstr. }
+  { exact Hnpp. }
+  { rewrite Hgt. cbn [w_spath w_shash s_otype]. rewrite (ent_file (real_evl w) g w e en EO t). discriminate. }
+  rewrite H4 in H. cbn [rbind] in H. discriminate H.
+Qed.
+
+Lemma upload_total g w e en s k ob cs k' ob' n c :
+  SCtx g w e en -> e_ign en = INone ->
+  s_oid (gs en s) = Some (ostr_k k) -> obj_at w s k = Some ob -> ProvModel.o_exists ob = true ->
+  g_get k (g_of g s) = Some cs ->
+  s_oid (gs en (negb s)) = Some (ostr_k k') -> obj_at w (negb s) k' = Some ob' ->
+  ProvModel.o_path ob = [root_name s; n] ->
+  s_path (gs en s) = Some (pstr [root_name s; n]) -> tchg (s_chg (gs en s)) = true ->
+  x_tfile (getx w e s) = None ->
+  upload_synced (setx (tname_world w e s en (pstr [root_name s; n])) e s (set_tfile (ProvModel.o_data ob))) e s = OutOfFragment c ->
+  False.
+Proof.
+  intros [I He Hn Hr] Hign Ho Hob Hl Hg Hot Hobt Hpath Hsp Hc Htf H.
+  set (t := negb s) in *.
+  pose proof (i_cfg _ _ _ I) as Hcfg. pose proof (i_ents _ _ _ I e en He Hn) as EO.
+  assert (Hndisc: is_discarded (e_ign en) = false) by (rewrite Hign; reflexivity).
+  (* the peer is the engine's object: alive, and what its markers say *)
+  destruct (so_full _ _ _ _ _ _ (eo_side _ _ _ _ _ EO s) _ Ho) as (k1 & ob1 & Hk1 & Hob1 & Hk2 & FO).
+  apply ostr_k_inj in Hk1. subst k1. assert (ob1 = ob) by congruence. subst ob1.
+  destruct (so_full _ _ _ _ _ _ (eo_side _ _ _ _ _ EO t) _ Hot) as (k1 & ob1 & Hk1 & Hob1' & Hk2' & FOt).
+  apply ostr_k_inj in Hk1. subst k1. assert (ob1 = ob') by congruence. subst ob1.
+  assert (Hot_ne: s_oid (gs en (negb s)) <> None) by (fold t; rewrite Hot; discriminate).
+  destruct (fo_owner _ _ _ _ _ _ _ _ FO Hndisc cs Hg) as (P1 & P2 & P3 & P4 & P5).
+  destruct (P5 Hot_ne) as (Q1 & Q2 & Q3 & Q4).
+  assert (Hgt: g_get k' (g_of g t) = None) by (apply Q4; exact Hot).
+  destruct (fo_mirror _ _ _ _ _ _ _ _ FOt Hndisc Hgt) as (M1 & M2 & M3 & M4 & M5 & M6 & (k2 & ob2 & M7 & M8 & M9 & M10)).
+  destruct (sh_files _ _ (i_shape _ _ _ I t) k' ob' Hk2' Hobt) as (Hkf' & n' & Hpn' & Hnok').
+  destruct (tname_world_facts w e s en (pstr [root_name s; n]) Htf) as (TA & TB & TC & TD & TF & TG & TH).
+  set (w0 := tname_world w e s en (pstr [root_name s; n])) in *.
+  set (data := ProvModel.o_data ob) in *.
+  set (w1 := setx w0 e s (set_tfile data)) in *.
+  assert (H1cfg: w_cfg w1 = cfg_std 1) by (unfold w1; rewrite w_cfg_setx; congruence).
+  assert (H1st: w_st w1 = w_st w) by (unfold w1; rewrite w_st_setx; exact TB).
+  assert (H1prov: forall sd0, prov_of w1 sd0 = prov_of w sd0) by (intros; unfold w1; rewrite prov_of_setx; apply TC).
+  unfold upload_synced in H.
+  assert (Htd: temp_data w1 e s = ROk data) by (unfold temp_data, w1; rewrite getx_setx_same; reflexivity).
+  rewrite Htd in H. cbn [rbind] in H.
+  unfold get_e, lift, get_ent in H. rewrite H1st, Hn in H. cbn [rbind] in H. fold t in H. rewrite Hot in H.
+  rewrite (key_of_std w1 t k' H1cfg) in H. cbn [rbind] in H. rewrite (H1prov t) in H.
+  pose proof (i_pwf _ _ _ I t) as HWt. unfold obj_at in Hobt.
+  destruct (upload_spec _ _ _ data HWt Hobt M1 Hkf') as (pv & Eup & Hheap & Hlog & Hcur & Hpcfg & HWv).
+  rewrite Eup in H.
+  set (ob'' := ProvModel.set_data ob' data) in *.
+  set (w2 := with_prov w1 t pv) in *.
+  assert (H2cfg: w_cfg w2 = cfg_std 1) by (unfold w2, with_prov; destruct t; exact H1cfg).
+  assert (H2st: w_st w2 = w_st w) by (unfold w2, with_prov; destruct t; exact H1st).
+  assert (H2tape: tape (w_st w2) = []) by (rewrite H2st; apply (i_tape _ _ _ I)).
+  assert (H2n: nth_error (ents (w_st w2)) e = Some en) by (rewrite H2st; exact Hn).
+  assert (Hid: ProvModel.i_data (ProvModel.info_of ob'') = Some data) by (unfold ProvModel.info_of, ob''; simpl; rewrite Hkf'; reflexivity).
+  rewrite Hid in H.
+  destruct (plain_w w2 H2tape e t (fun y => w_hash y (Some data)) en H2n) as (wa & Ha & Wa); [intros; split; reflexivity|].
+  rewrite Ha in H. cbn [rbind] in H. set (ena := ss en t (w_hash (gs en t) (Some data))) in *.
+  pose proof (weff_nth _ _ _ _ _ _ Wa H2n) as Hna. assert (Hta: tape (w_st wa) = []) by (destruct Wa as (_ & _ & _ & _ & _ & T); exact T).
+  destruct (plain_w wa Hta e t (fun y => w_shash y (Some data)) ena Hna) as (wb & Hb & Wb); [intros; split; reflexivity|].
+  rewrite Hb in H. cbn [rbind] in H. set (enb := ss ena t (w_shash (gs ena t) (Some data))) in *.
+  pose proof (weff_nth _ _ _ _ _ _ Wb Hna) as Hnb. assert (Htb: tape (w_st wb) = []) by (destruct Wb as (_ & _ & _ & _ & _ & T); exact T).
+  unfold get_e, lift, get_ent in H. rewrite Hnb in H. cbn [rbind] in H.
+  assert (Hsp_t: s_spath (gs enb t) = Some (pstr (ProvModel.o_path ob'))) by (unfold enb, ena; rewrite !gs_ss_same; exact M5).
+  rewrite Hsp_t in H. rewrite tstr_pstr in H. cbn [rbind] in H.
+  assert (Hs_b: gs enb s = gs en s) by (unfold enb, ena; rewrite !gs_ss_neq by (unfold t; destruct s; discriminate); reflexivity).
+  rewrite Hs_b in H.
+  destruct (plain_w wb Htb e s (fun y => w_shash y (s_hash (gs en s))) enb Hnb) as (wc & Hcc & Wc); [intros; split; reflexivity|].
+  rewrite Hcc in H. cbn [rbind] in H. set (enc := ss enb s (w_shash (gs enb s) (s_hash (gs en s)))) in *.
+  pose proof (weff_nth _ _ _ _ _ _ Wc Hnb) as Hnc. assert (Htc: tape (w_st wc) = []) by (destruct Wc as (_ & _ & _ & _ & _ & T); exact T).
+  destruct (plain_w wc Htc e s (fun y => w_spath y (s_path (gs en s))) enc Hnc) as (wd & Hd & Wd); [intros; split; reflexivity|].
+  rewrite Hd in H. cbn [rbind] in H. set (end_ := ss enc s (w_spath (gs enc s) (s_path (gs en s)))) in *.
+  pose proof (weff_nth _ _ _ _ _ _ Wd Hnc) as Hnd. assert (Htd': tape (w_st wd) = []) by (destruct Wd as (_ & _ & _ & _ & _ & T); exact T).
+  pose proof (weff_trans _ _ _ _ _ _ _ _ (weff_trans _ _ _ _ _ _ _ _ (weff_trans _ _ _ _ _ _ _ _ Wa Wb) Wc) Wd) as Wad. cbn [mcomp] in Wad.
+  assert (Hdcfg: w_cfg wd = cfg_std 1) by (destruct Wad as (A & _); congruence).
+  assert (HdI: IdxJ (w_st wd)) by (destruct Wad as (_ & _ & _ & _ & (_ & _ & _ & _ & J) & _); apply J; rewrite H2st; apply (i_idx _ _ _ I)).
+  unfold get_e, lift, get_ent in H. rewrite Hnd in H. cbn [rbind] in H.
+  assert (Hst: t <> s) by (unfold t; destruct s; discriminate).
+  assert (Hgt_d: gs end_ t = w_shash (w_hash (gs en t) (Some data)) (Some data)).
+  { unfold end_, enc. rewrite !gs_ss_neq by exact Hst. unfold enb, ena. rewrite !gs_ss_same. reflexivity. }
+  assert (Hgs_d: gs end_ s = w_spath (w_shash (gs en s) (s_hash (gs en s))) (s_path (gs en s))).
+  { unfold end_, enc. rewrite !gs_ss_same, Hs_b. reflexivity. }
+  assert (Hio: kstr (ProvModel.i_oid (ProvModel.info_of ob'')) = ostr_k k').
+  { unfold ProvModel.info_of, ob''. simpl. rewrite (pw_oid _ HWt _ _ Hobt). reflexivity. }
+  rewrite Hio in H.
+  assert (Hpath_d: s_spath (gs end_ t) = s_path (gs end_ t)) by (rewrite Hgt_d; cbn [w_shash w_hash s_spath s_path]; congruence).
+  rewrite Hpath_d in H.
+  assert (Hal: al_get (ostr_k k') (oids (w_st wd) t) = Some e).
+  { apply (idx_found_get _ _ _ _ _ HdI Hnd). rewrite Hgt_d. cbn [w_shash w_hash s_oid]. exact Hot. }
+  destruct (upd_entry_same_w wd e t (ostr_k k') end_ Hdcfg Htd' Hnd) as (w4 & H4 & W4).
+  { rewrite Hgt_d. cbn [w_shash w_hash s_oid]. exact Hot. }
+  { exact Hal. }
+  { intros q Hq. rewrite Hgt_d in Hq. cbn [w_shash w_hash s_path] in Hq. rewrite M6 in Hq. injection Hq as <-. rewrite Hpn'.
+    apply nps_pstr. constructor; [apply root_name_ok|]. constructor; [exact Hnok'|constructor]. }
+  rewrite H4 in H. cbn [rbind] in H. discriminate H.
+Qed.
+
+Lemma delete_total g w e en s k c :
+  SCtx g w e en -> e_ign en = INone -> s_ex (gs en s) = ExTrashed -> s_oid (gs en s) = Some (ostr_k k) ->
+  delete_synced w e s = OutOfFragment c ->
+  In c G_DELETE.
+Proof.
+  intros [I He Hn Hr] Hign Hex Ho H.
+  set (t := negb s) in *.
+  pose proof (i_cfg _ _ _ I) as Hcfg. pose proof (i_tape _ _ _ I) as Htape. pose proof (i_ents _ _ _ I e en He Hn) as EO.
+  assert (Hndisc: is_discarded (e_ign en) = false) by (rewrite Hign; reflexivity).
+  destruct (so_full _ _ _ _ _ _ (eo_side _ _ _ _ _ EO s) _ Ho) as (k1 & ob & Hk1 & Hob & Hk2 & FO).
+  apply ostr_k_inj in Hk1. subst k1.
+  assert (Hdead: ProvModel.o_exists ob = false) by (apply (fo_trash _ _ _ _ _ _ _ _ FO Hex)).
+  assert (Hgs: exists cs, g_get k (g_of g s) = Some cs).
+  { destruct (g_get k (g_of g s)) as [cs|] eqn:Eg; [eauto|]. destruct (fo_mirror _ _ _ _ _ _ _ _ FO Hndisc Eg) as (X & _). congruence. }
+  destruct Hgs as (cs & Hg).
+  unfold delete_synced in H. unfold get_e, lift, get_ent in H. rewrite Hn in H. cbn [rbind] in H.
+  match type of H with context [existsb ?F ?L] => destruct (existsb F L); [injection H as <-; left; reflexivity|] end.
+  match type of H with context [existsb ?F ?L] => destruct (existsb F L); [injection H as <-; left; reflexivity|] end.
+  fold t in H.
+  destruct (s_oid (gs en t)) as [o'|] eqn:Eot.
+  - (* the peer object is deleted *)
+    destruct (so_full _ _ _ _ _ _ (eo_side _ _ _ _ _ EO t) _ Eot) as (k' & ob' & Hk1 & Hobt & Hk2' & FOt). subst o'.
+    assert (Hot_ne: s_oid (gs en (negb s)) <> None) by (fold t; rewrite Eot; discriminate).
+    destruct (fo_owner _ _ _ _ _ _ _ _ FO Hndisc cs Hg) as (P1 & P2 & P3 & P4 & P5).
+    destruct (P5 Hot_ne) as (Q1 & Q2 & Q3 & Q4).
+    assert (Hgt: g_get k' (g_of g t) = None) by (apply Q4; exact Eot).
+    destruct (fo_mirror _ _ _ _ _ _ _ _ FOt Hndisc Hgt) as (M1 & M2 & M3 & M4 & M5 & M6 & _).
+    destruct (sh_files _ _ (i_shape _ _ _ I t) k' ob' Hk2' Hobt) as (Hkf' & n' & Hpn' & Hnok').
+    rewrite tstr_ostr in H. rewrite (key_of_std w t k' Hcfg) in H. cbn [rbind] in H.
+    pose proof (i_pwf _ _ _ I t) as HWt. unfold obj_at in Hobt.
+    destruct (delete_spec _ _ _ HWt Hobt M1 Hkf') as (pv & Edel & Hheap & Hlog & Hcur & Hpcfg & HWv).
+    rewrite Edel in H.
+    set (ob'' := ProvModel.set_exists ob' false) in *.
+    set (w2 := with_prov w t pv) in *.
+    assert (H2cfg: w_cfg w2 = cfg_std 1) by (unfold w2, with_prov; destruct t; exact Hcfg).
+    assert (H2st: w_st w2 = w_st w) by (unfold w2, with_prov; destruct t; reflexivity).
+    assert (H2tape: tape (w_st w2) = []) by (rewrite H2st; exact Htape).
+    assert (H2n: nth_error (ents (w_st w2)) e = Some en) by (rewrite H2st; exact Hn).
+    destruct (plain_w w2 H2tape e s (fun y => w_spath y None) en H2n) as (wa & Ha & Wa); [intros; split; reflexivity|].
+    rewrite Ha in H. cbn [rbind] in H. set (ena := ss en s (w_spath (gs en s) None)) in *.
+    pose proof (weff_nth _ _ _ _ _ _ Wa H2n) as Hna. assert (Hta: tape (w_st wa) = []) by (destruct Wa as (_ & _ & _ & _ & _ & T); exact T).
+    destruct (plain_w wa Hta e t (fun y => w_ex y ExTrashed) ena Hna) as (wb & Hb & Wb); [intros; split; reflexivity|].
+    rewrite Hb in H. cbn [rbind] in H. set (enb := ss ena t (w_ex (gs ena t) ExTrashed)) in *.
+    pose proof (weff_nth _ _ _ _ _ _ Wb Hna) as Hnb. assert (Htb: tape (w_st wb) = []) by (destruct Wb as (_ & _ & _ & _ & _ & T); exact T).
+    unfold get_e, lift, get_ent in H. rewrite Hnb in H. cbn [rbind] in H.
+    assert (Hign_b: e_ign enb = INone) by (unfold enb, ena; rewrite !ign_ss; exact Hign).
+    rewrite Hign_b in H. cbn [is_conflicted] in H.
+    assert (Hbcfg: w_cfg wb = cfg_std 1) by (destruct Wa as (A & _); destruct Wb as (B & _); congruence).
+    destruct (set_ignored_w wb Htb e IDiscarded enb Hnb) as (wc & Hc' & Wc).
+    rewrite Hc' in H. cbn [rbind] in H. discriminate H.
+  - (* never synchronised: nothing to delete *)
+    cbn [rbind] in H.
+    destruct (plain_w w Htape e t (fun y => w_ex y ExTrashed) en Hn) as (wb & Hb & Wb); [intros; split; reflexivity|].
+    rewrite Hb in H. cbn [rbind] in H. set (enb := ss en t (w_ex (gs en t) ExTrashed)) in *.
+    pose proof (weff_nth _ _ _ _ _ _ Wb Hn) as Hnb. assert (Htb: tape (w_st wb) = []) by (destruct Wb as (_ & _ & _ & _ & _ & T); exact T).
+    unfold get_e, lift, get_ent in H. rewrite Hnb in H. cbn [rbind] in H.
+    assert (Hign_b: e_ign enb = INone) by (unfold enb; rewrite !ign_ss; exact Hign).
+    rewrite Hign_b in H. cbn [is_conflicted] in H.
+    destruct (set_ignored_w wb Htb e IDiscarded enb Hnb) as (wc & Hc' & Wc).
+    rewrite Hc' in H. cbn [rbind] in H. discriminate H.
+Qed.
+
+(* ------------------------------------------------------------------ guards of sync() that never fire on F1 *)
+Lemma split_guard_false g w e en sd : SCtx g w e en -> e_ign en = INone -> split_guard (cfg_std 1) en sd = false.
+Proof.
+  intros SC Hign. unfold split_guard, moved_out_of_root.
+  destruct (s_oid (gs en (negb sd))) as [o|] eqn:Eo; [|cbn [tstr andb]; apply andb_false_r].
+  destruct (side_obj g w e en SC (negb sd) o Eo) as (k & ob & n & -> & Hob & Hk2 & FO & Hkf & Hp & Hnok).
+  destruct (fo_path _ _ _ _ _ _ _ _ FO) as [X|X]; rewrite X; [cbn [tstr andb]; rewrite !andb_false_r; reflexivity|].
+  rewrite Hp, negb_involutive, (translate_file sd n Hnok). rewrite !andb_false_r. reflexivity.
+Qed.
+
+Lemma hash_conflict_false g w e en : SCtx g w e en -> e_ign en = INone -> hash_conflict en = false.
+Proof.
+  intros SC Hign. pose proof (sc_inv _ _ _ _ SC) as I. pose proof (sc_en _ _ _ _ SC) as Hn. pose proof (sc_e _ _ _ _ SC) as He.
+  pose proof (i_ents _ _ _ I e en He Hn) as EO.
+  destruct (hash_conflict en) eqn:E; [exfalso|reflexivity]. unfold hash_conflict in E.
+  apply andb_prop in E as [E Hr]. apply andb_prop in E as [E Hl]. apply andb_prop in E as [E Hpr]. apply andb_prop in E as [E Hpl].
+  apply negb_true_iff in Hr, Hl.
+  assert (Hside: forall sd, tstr (s_path (gs en sd)) = true -> oN_eqb (s_hash (gs en sd)) (s_shash (gs en sd)) = false ->
+                 exists k ob cs, s_oid (gs en sd) = Some (ostr_k k) /\ obj_at w sd k = Some ob /\ FullOk (real_evl w) g w e en sd k ob /\ g_get k (g_of g sd) = Some cs).
+  { intros sd Hp Hh. destruct (s_oid (gs en sd)) as [o|] eqn:Eo.
+    - destruct (side_obj g w e en SC sd o Eo) as (k & ob & n & -> & Hob & _ & FO & _).
+      assert (Hd: s_hash (gs en sd) <> s_shash (gs en sd)) by (intros X; rewrite X, oN_eqb_refl in Hh; discriminate).
+      destruct (hashdiff_owner g w e en Hign sd k ob Hd Eo FO) as (cs & Hg). exists k, ob, cs. auto.
+    - destruct (so_empty _ _ _ _ _ _ (eo_side _ _ _ _ _ EO sd) Eo) as (_ & X & _). rewrite X in Hp. discriminate. }
+  destruct (Hside false Hpl Hl) as (kl & obl & csl & Hol & Hobl & FOl & Hgl).
+  destruct (Hside true Hpr Hr) as (kr & obr & csr & Hor & Hobr & FOr & Hgr).
+  destruct (fo_owner _ _ _ _ _ _ _ _ FOl (nd en Hign) csl Hgl) as (_ & _ & _ & _ & P5).
+  assert (Hne: s_oid (gs en (negb false)) <> None) by (cbn [negb]; rewrite Hor; discriminate).
+  destruct (P5 Hne) as (_ & _ & _ & Q4). cbn [negb] in Q4. rewrite (Q4 kr Hor) in Hgr. discriminate.
+Qed.
+
+Lemma path_conflict_false g w e en : SCtx g w e en -> e_ign en = INone -> path_conflict (cfg_std 1) en = false.
+Proof.
+  intros SC Hign. unfold path_conflict.
+  destruct (s_spath (e_l en)) as [q|] eqn:Eq.
+  - change (e_l en) with (gs en false) in *. rewrite (paths_differ_same false (gs en false) q Eq (side_paths g w e en SC Hign false q Eq)).
+    rewrite !andb_false_r. reflexivity.
+  - cbn [tstr]. rewrite !andb_false_r. reflexivity.
+Qed.
+
+(* ------------------------------------------------------------------ SyncManager.sync: the OutOfFragment answers that are left *)
+Definition G_EMBRACE : list N :=
+  [X_IRRELEVANT; X_LEVEL + 3; X_MISSING; X_HASHDIFF_GONE; X_PEERS; X_DELETE_OTHER; X_CREATE_EXISTS].
+Definition G_SYNC : list N := G_EMBRACE.
+
+Ltac oof_code E :=
+  repeat (match type of E with
+          | (if ?B then _ else _) = _ => destruct B
+          | (match ?X with _ => _ end) = _ => destruct X
+          end); try discriminate E; injection E as <-.
+
+Lemma hash_diff_total g w e en s c :
+  SCtx g w e en -> e_ign en = INone -> needs_sync (cfg_std 1) s (gs en s) = true ->
+  notmp w e -> ex_in_gone (s_ex (gs en s)) = false -> s_hash (gs en s) <> s_shash (gs en s) ->
+  handle_hash_diff w e s = OutOfFragment c -> c = X_HASHDIFF_GONE.
+Proof.
+  intros SC Hign Hns Htmp Hex Hdiff H.
+  pose proof (sc_inv _ _ _ _ SC) as I. pose proof (sc_en _ _ _ _ SC) as Hn.
+  destruct (needs_sync_parts g w e en SC s Hns) as (Hc & o & Ho).
+  destruct (side_obj g w e en SC s o Ho) as (k & ob & n & -> & Hob & Hk2 & FO & Hkf & Hp & Hnok).
+  unfold handle_hash_diff in H. unfold get_e, lift, get_ent in H. rewrite Hn in H. cbn [rbind] in H.
+  destruct (fo_path _ _ _ _ _ _ _ _ FO) as [Hpn|Hps]; [rewrite Hpn in H; discriminate|].
+  rewrite Hps in H.
+  destruct (ex_in_gone (s_ex (gs en (negb s))) || negb (tstr (s_oid (gs en (negb s)))))%bool eqn:Eg; [injection H as <-; reflexivity|].
+  exfalso.
+  apply orb_false_elim in Eg as [Eg1 Eg2]. apply negb_false_iff in Eg2. destruct (tstr_some _ Eg2) as (o' & Ho').
+  destruct (side_obj g w e en SC (negb s) o' Ho') as (k' & ob' & n' & -> & Hob' & Hk2' & FO' & _).
+  destruct (hashdiff_owner g w e en Hign s k ob Hdiff Ho FO) as (csg & Hg).
+  rewrite Hp in Hps.
+  destruct (ProvModel.o_exists ob) eqn:El.
+  - rewrite (download_live w e s en _ k ob (i_cfg _ _ _ I) (i_pwf _ _ _ I s) (Htmp s) Hn Hps Ho Hob El Hkf) in H.
+    cbn [rbind negb] in H.
+    match type of H with context [upload_synced ?W e s] => destruct (upload_synced W e s) as [[[w2 cs2] up]|c'] eqn:Eu end.
+    + cbn [rbind] in H. discriminate.
+    + apply (upload_total g w e en s k ob csg k' ob' n c' SC Hign Ho Hob El Hg Ho' Hob' Hp Hps Hc (Htmp s) Eu).
+  - destruct (download_dead w e s en _ k ob (i_cfg _ _ _ I) (i_tape _ _ _ I) (i_pwf _ _ _ I s) (Htmp s) Hn Hps Ho Hob El Hkf) as (w2 & Ed & We).
+    rewrite Ed in H. cbn [rbind negb] in H. discriminate.
+Qed.
+
+Lemma creation_total g w e en s c :
+  SCtx g w e en -> e_ign en = INone -> needs_sync (cfg_std 1) s (gs en s) = true ->
+  notmp w e -> is_creation (cfg_std 1) en s = true ->
+  handle_path_change_or_creation w e s = OutOfFragment c -> In c (X_PEERS :: G_CREATE).
+Proof.
+  intros SC Hign Hns Htmp Hcr H.
+  pose proof (sc_inv _ _ _ _ SC) as I. pose proof (sc_en _ _ _ _ SC) as Hn. pose proof (sc_e _ _ _ _ SC) as He.
+  pose proof (i_ents _ _ _ I e en He Hn) as EO.
+  destruct (needs_sync_parts g w e en SC s Hns) as (Hc & o & Ho).
+  destruct (side_obj g w e en SC s o Ho) as (k & ob & n & -> & Hob & Hk2 & FO & Hkf & Hp & Hnok).
+  destruct (creation_owner g w e en SC Hign s k ob Hcr Ho Hob FO) as (Hyn & csg & Hg).
+  assert (Hexy: s_ex (gs en (negb s)) = ExUnknown).
+  { apply (so_empty_ex _ _ _ _ _ _ (eo_side _ _ _ _ _ EO (negb s)) Hyn). rewrite Hign. reflexivity. }
+  pose proof Hcr as Hcr'. unfold is_creation in Hcr'. apply andb_prop in Hcr' as [Hcr' _]. apply andb_prop in Hcr' as [Hcr' _].
+  apply andb_prop in Hcr' as [Hpt Hexx].
+  assert (Hps: s_path (gs en s) = Some (pstr [root_name s; n])).
+  { destruct (fo_path _ _ _ _ _ _ _ _ FO) as [X|X]; [rewrite X in Hpt; discriminate|rewrite X, Hp; reflexivity]. }
+  unfold handle_path_change_or_creation in H. unfold get_e, lift, get_ent in H. rewrite Hn in H. cbn [rbind] in H.
+  rewrite (i_cfg _ _ _ I), Hps in H.
+  pose proof (translate_file (negb s) n Hnok) as Htr. rewrite negb_involutive in Htr. rewrite Htr in H.
+  rewrite Hexy, Hcr in H. cbn [ex_is andb] in H. rewrite !andb_false_r in H.
+  unfold check_disjoint_create in H. unfold get_e, lift, get_ent in H. rewrite Hn in H. cbn [rbind] in H.
+  unfold is_file, is_dir in H. rewrite (ent_file _ _ _ _ _ EO s) in H. cbn [otype_eqb negb] in H.
+  destruct (others e (lookup_path (w_st w) (negb s) (Some (pstr [root_name (negb s); n])))) as [|z zs]; [|cbn [rbind] in H; injection H as <-; left; reflexivity].
+  cbn [rbind] in H. right.
+  destruct (ProvModel.o_exists ob) eqn:El.
+  - rewrite (download_live w e s en _ k ob (i_cfg _ _ _ I) (i_pwf _ _ _ I s) (Htmp s) Hn Hps Ho Hob El Hkf) in H.
+    cbn [rbind negb] in H.
+    apply (create_total g w e en s k ob csg n c SC Hign Ho Hob El Hg Hyn Hp Hnok Hps Hc (Htmp s) H).
+  - destruct (download_dead w e s en _ k ob (i_cfg _ _ _ I) (i_tape _ _ _ I) (i_pwf _ _ _ I s) (Htmp s) Hn Hps Ho Hob El Hkf) as (w2 & Ed & We).
+    rewrite Ed in H. cbn [rbind negb] in H. discriminate.
+Qed.
+
+Lemma In_embrace_of l c : In c l -> (forall x, In x l -> In x G_EMBRACE) -> In c G_EMBRACE.
+Proof. auto. Qed.
+
+Lemma embrace_total g w e en s c :
+  SCtx g w e en -> e_ign en = INone -> needs_sync (cfg_std 1) s (gs en s) = true ->
+  notmp w e -> maxchg en <= now (w_st w) ->
+  embrace_change w e s = OutOfFragment c -> In c G_EMBRACE.
+Proof.
+  intros SC Hign Hns Htmp Hmax H.
+  pose proof (sc_inv _ _ _ _ SC) as I. pose proof (sc_en _ _ _ _ SC) as Hn. pose proof (sc_e _ _ _ _ SC) as He.
+  pose proof (i_ents _ _ _ I e en He Hn) as EO.
+  destruct (needs_sync_parts g w e en SC s Hns) as (Hc & o & Ho).
+  destruct (side_obj g w e en SC s o Ho) as (k & ob & n & -> & Hob & Hk2 & FO & Hkf & Hp & Hnok).
+  unfold embrace_change in H. unfold get_e, lift, get_ent in H. rewrite Hn in H. cbn [rbind] in H.
+  rewrite (i_cfg _ _ _ I) in H.
+  match type of H with (rbind ?A _) = _ => destruct A as [[]|c0] eqn:E0 end.
+  2:{ cbn [rbind] in H. injection H as <-. oof_code E0. left. reflexivity. }
+  cbn [rbind] in H. clear E0.
+  rewrite Hign in H. cbn [is_discarded is_conflicted] in H.
+  match type of H with (rbind ?A _) = _ => destruct A as [pc|c0] eqn:Epc end.
+  2:{ exfalso. oof_code Epc. }
+  cbn [rbind] in H. clear Epc.
+  destruct pc as [ce|].
+  { unfold gate, lvl in H. rewrite (i_cfg _ _ _ I) in H. cbn in H. injection H as <-. right. left. reflexivity. }
+  rewrite oip_std in H.
+  destruct (ex_is (s_ex (gs en s)) ExTrashed) eqn:Et.
+  - assert (Ex: s_ex (gs en s) = ExTrashed) by (destruct (s_ex (gs en s)); simpl in Et; congruence).
+    assert (Hnc: is_creation (cfg_std 1) en (negb s) = false).
+    { destruct (is_creation (cfg_std 1) en (negb s)) eqn:Ec; [exfalso|reflexivity].
+      pose proof Ec as Ec'. unfold is_creation in Ec'. apply andb_prop in Ec' as [Ec' _]. apply andb_prop in Ec' as [_ Hns'].
+      destruct (needs_sync_parts g w e en SC (negb s) Hns') as (_ & o' & Ho').
+      destruct (side_obj g w e en SC (negb s) o' Ho') as (k' & ob' & n' & -> & Hob' & _ & FO' & _).
+      destruct (creation_owner g w e en SC Hign (negb s) k' ob' Ec Ho' Hob' FO') as (X & _).
+      rewrite negb_involutive in X. congruence. }
+    rewrite Hnc in H. cbn [andb] in H.
+    destruct (delete_total g w e en s k c SC Hign Ex Ho H) as [<-|[]]. unfold G_EMBRACE. cbn. auto 10.
+  - destruct (ex_is (s_ex (gs en s)) ExMissing) eqn:Em; [injection H as <-; unfold G_EMBRACE; cbn; auto 10|].
+    assert (Hgone: ex_in_gone (s_ex (gs en s)) = false) by (destruct (s_ex (gs en s)); simpl in *; congruence).
+    rewrite (no_path_change g w e en SC Hign s) in H. cbn [orb] in H.
+    destruct (is_creation (cfg_std 1) en s) eqn:Ecr.
+    + destruct (handle_path_change_or_creation w e s) as [[[wa csa] rsa]|c0] eqn:Eh.
+      * exfalso. cbn [rbind] in H.
+        destruct (creation_pres g w e en s wa csa rsa SC Hign Hns Htmp Ecr Hmax Eh) as (en1 & SC1 & Hgx1 & Hown1 & Hres).
+        destruct rsa.
+        -- destruct Hres as (HJ & Hi1 & Hh1). unfold get_e, lift, get_ent in H. rewrite (sc_en _ _ _ _ SC1) in H. cbn [rbind] in H.
+           rewrite Hi1 in H. cbn [is_discarded rbind] in H. rewrite (sc_en _ _ _ _ SC1) in H. cbn [rbind] in H.
+           rewrite Hh1, oN_eqb_refl in H. cbn [negb] in H. discriminate.
+        -- cbn [rbind] in H. discriminate.
+        -- destruct Hres.
+      * cbn [rbind] in H. injection H as <-.
+        pose proof (creation_total g w e en s c0 SC Hign Hns Htmp Ecr Eh) as X. unfold G_CREATE, G_EMBRACE in *. cbn in *. intuition.
+    + cbn [rbind] in H. unfold get_e, lift, get_ent in H. rewrite Hn in H. cbn [rbind] in H.
+      destruct (oN_eqb (s_hash (gs en s)) (s_shash (gs en s))) eqn:Eh; cbn [negb] in H; [discriminate|].
+      destruct (handle_hash_diff w e s) as [[[w2 cs2] rs2]|c0] eqn:Ed; [cbn [rbind] in H; discriminate|].
+      cbn [rbind] in H. injection H as <-.
+      rewrite (hash_diff_total g w e en s c0 SC Hign Hns Htmp Hgone); [unfold G_EMBRACE; cbn; auto 10| |exact Ed].
+      intros X. rewrite X, oN_eqb_refl in Eh. discriminate.
+Qed.
+
+Lemma punt_total g w e en : Inv g w -> nth_error (ents (w_st w)) e = Some en -> exists w', punt w e = ROk w'.
+Proof.
+  intros I Hn. unfold punt, get_e, lift, get_ent. rewrite Hn. cbn [rbind].
+  destruct (set_priority_w w (i_cfg _ _ _ I) (i_tape _ _ _ I) e (e_prio en + PRIO_ONE) en Hn) as (w2 & H2 & _). eauto.
+Qed.
+
+Lemma In_sync_of_embrace c : In c G_EMBRACE -> In c G_SYNC.
+Proof. intros H. exact H. Qed.
+
+Lemma sync_side_total g w e en s c :
+  SCtx g w e en -> e_ign en = INone -> notmp w e -> maxchg en <= now (w_st w) ->
+  sync_side w e s = OutOfFragment c -> In c G_SYNC.
+Proof.
+  intros SC Hign Htmp Hmax H.
+  pose proof (sc_inv _ _ _ _ SC) as I. pose proof (sc_en _ _ _ _ SC) as Hn. pose proof (sc_e _ _ _ _ SC) as He.
+  pose proof (i_ents _ _ _ I e en He Hn) as EO.
+  unfold sync_side in H. unfold get_e, lift, get_ent in H. rewrite Hn in H. cbn [rbind] in H.
+  rewrite (i_cfg _ _ _ I) in H.
+  destruct (needs_sync (cfg_std 1) s (gs en s)) eqn:Hns; cbn [negb] in H.
+  2:{ exfalso. destruct (tchg (s_chg (gs en s))) eqn:Hc; [|discriminate].
+      destruct (set_changed_w w (i_cfg _ _ _ I) (i_tape _ _ _ I) e s (CNum 0) en Hn) as (wa & Ha & Wa).
+      rewrite Ha in H. cbn [rbind] in H. discriminate. }
+  destruct (needs_sync_parts g w e en SC s Hns) as (Hc & o & Ho).
+  destruct (negb (thash (s_hash (gs en s))) && is_file (gs en s) && ex_is (s_ex (gs en s)) ExExists)%bool.
+  { exfalso. destruct (finished_total g w e en s I He Hn) as (wa & Ef). rewrite Ef in H. cbn [rbind] in H. discriminate. }
+  rewrite Ho in H. cbn [negb andb] in H.
+  match type of H with (if ?B then _ else _) = _ => destruct B; [discriminate|] end.
+  rewrite (path_conflict_false g w e en SC Hign) in H.
+  destruct (embrace_change w e s) as [[[w1 cs1] rs]|c0] eqn:Ee.
+  - exfalso. cbn [rbind] in H.
+    destruct (embrace_pres g w e en s w1 cs1 rs SC Hign Hns Htmp Hmax Ee) as (en1 & SC1 & Hgx1 & Hown1 & Hres).
+    destruct rs.
+    + destruct (finished_total g w1 e en1 s (sc_inv _ _ _ _ SC1) He (sc_en _ _ _ _ SC1)) as (wa & Ef). rewrite Ef in H. cbn [rbind] in H. discriminate.
+    + destruct (punt_total g w1 e en1 (sc_inv _ _ _ _ SC1) (sc_en _ _ _ _ SC1)) as (wa & Ep). rewrite Ep in H. cbn [rbind] in H. discriminate.
+    + destruct Hres.
+  - cbn [rbind] in H. injection H as <-. apply In_sync_of_embrace. apply (embrace_total g w e en s c0 SC Hign Hns Htmp Hmax Ee).
+Qed.
+
+Lemma sync_entry_total g w e en c :
+  SCtx g w e en -> e_ign en = INone -> notmp w e -> maxchg en <= now (w_st w) ->
+  sync_entry w e = OutOfFragment c -> In c G_SYNC.
+Proof.
+  intros SC Hign Htmp Hmax H.
+  pose proof (sc_en _ _ _ _ SC) as Hn.
+  unfold sync_entry in H. unfold get_e, lift, get_ent in H. rewrite Hn in H. cbn [rbind] in H.
+  rewrite (i_cfg _ _ _ (sc_inv _ _ _ _ SC)), (split_guard_false g w e en false SC Hign), (split_guard_false g w e en true SC Hign) in H.
+  cbn [orb] in H. rewrite (hash_conflict_false g w e en SC Hign) in H.
+  set (first := N.ltb (chgval (s_chg (e_r en))) (chgval (s_chg (e_l en)))) in H.
+  destruct (sync_side w e first) as [[[w1 cs1] f1]|c0] eqn:E1.
+  - cbn [rbind] in H.
+    destruct (sync_side_pres g w e en first w1 cs1 f1 SC Hign Htmp Hmax E1) as (Hgx1 & Ht1 & Hown1 & Hres1).
+    destruct f1; [|discriminate].
+    destruct Hres1 as (en1 & SC1 & Hi1 & Hm1).
+    destruct (sync_side w1 e (negb first)) as [[[w2 cs2] f2]|c1] eqn:E2; [cbn [rbind] in H; discriminate|].
+    cbn [rbind] in H. injection H as <-. apply (sync_side_total g w1 e en1 (negb first) c1 SC1 Hi1 Ht1 Hm1 E2).
+  - cbn [rbind] in H. injection H as <-. apply (sync_side_total g w e en first c0 SC Hign Htmp Hmax E1).
+Qed.
+
+(* one engine step leaves the fragment only with one of the guard codes of G_SYNC *)
+Theorem engine_step_guards g w a c :
+  Inv g w -> NoTmp w -> algo_step w a = OutOfFragment c -> In c G_SYNC.
+Proof.
+  intros I T H. destruct a as [sd o|sd clk|order clk].
+  - simpl in H. discriminate.
+  - simpl in H. destruct (intake_total g (at_clock w clk) sd (Inv_at_clock g w clk I)) as (w1 & E). rewrite E in H. cbn [rbind] in H. discriminate.
+  - simpl in H.
+    destruct (sync_step_total_up_to_sync g (at_clock w clk) order c (Inv_at_clock g w clk I)) with (2 := H) as (w3 & e & en3 & SC3 & Hi3 & Ht3 & Hm3 & Ese).
+    { intros x sd0. apply T. }
+    apply (sync_entry_total g w3 e en3 c SC3 Hi3 Ht3 Hm3 Ese).
+Qed.
+
+(* whole runs: an in-domain run under any schedule either goes through (ROk) or stops with one of the guard codes *)
+Theorem run_guards : forall acts used lvL lvR g w c,
+  Inv g w -> NoTmp w -> Dom used lvL lvR g w ->
+  in_F_from 1 used lvL lvR [] [] (history_of acts) = true ->
+  algo_run w acts = OutOfFragment c -> In c G_SYNC.
+Proof.
+  induction acts as [|a r IH]; intros used lvL lvR g w c I T D HF H.
+  - simpl in H. discriminate.
+  - simpl in H. destruct (algo_step w a) as [[w1 cs1]|c0] eqn:Es.
+    2:{ cbn [rbind] in H. injection H as <-. apply (engine_step_guards g w a c0 I T Es). }
+    cbn [rbind] in H.
+    destruct a as [sd o|sd clk|order clk].
+    + simpl in Es. injection Es as <- <-. change (history_of (AUser sd o :: r)) with ((sd, o) :: history_of r) in HF.
+      destruct o as [rel d|rel d|rel|rel rel2|rel].
+      * destruct sd; simpl in HF; apply andb_prop in HF as [Hnl HF]; destruct (new_leaf_1 _ _ Hnl) as (n & -> & Hnok & Hnew);
+          change (leaf [n]) with n in HF.
+        -- destruct (user_create_pres used lvL lvR g w true n d I T D Hnok Hnew) as (g1 & I1 & T1 & _ & D1).
+           apply (IH _ _ _ g1 _ c I1 T1 D1 HF H).
+        -- destruct (user_create_pres used lvL lvR g w false n d I T D Hnok Hnew) as (g1 & I1 & T1 & _ & D1).
+           apply (IH _ _ _ g1 _ c I1 T1 D1 HF H).
+      * destruct sd; simpl in HF.
+        -- destruct (live_get rel lvR) as [cs|] eqn:El; [|discriminate]. apply andb_prop in HF as [Hf HF]. apply negb_true_iff in Hf.
+           destruct (user_write_pres used lvL lvR g w true rel d cs I T D El Hf) as (g1 & I1 & T1 & _ & D1).
+           apply (IH _ _ _ g1 _ c I1 T1 D1 HF H).
+        -- destruct (live_get rel lvL) as [cs|] eqn:El; [|discriminate]. apply andb_prop in HF as [Hf HF]. apply negb_true_iff in Hf.
+           destruct (user_write_pres used lvL lvR g w false rel d cs I T D El Hf) as (g1 & I1 & T1 & _ & D1).
+           apply (IH _ _ _ g1 _ c I1 T1 D1 HF H).
+      * destruct sd; simpl in HF.
+        -- destruct (live_get rel lvR) as [cs|] eqn:El; [|discriminate].
+           destruct (user_delete_pres used lvL lvR g w true rel cs I T D El) as (g1 & I1 & T1 & _ & D1).
+           apply (IH _ _ _ g1 _ c I1 T1 D1 HF H).
+        -- destruct (live_get rel lvL) as [cs|] eqn:El; [|discriminate].
+           destruct (user_delete_pres used lvL lvR g w false rel cs I T D El) as (g1 & I1 & T1 & _ & D1).
+           apply (IH _ _ _ g1 _ c I1 T1 D1 HF H).
+      * simpl in HF. discriminate.
+      * simpl in HF. discriminate.
+    + destruct (engine_step_pres g w (AIntake sd clk) w1 cs1 I T ltac:(intros; discriminate) Es) as (I1 & T1 & O1).
+      apply (IH used lvL lvR g w1 c I1 T1 (Dom_frame _ _ _ _ _ _ O1 D) HF H).
+    + destruct (engine_step_pres g w (ASync order clk) w1 cs1 I T ltac:(intros; discriminate) Es) as (I1 & T1 & O1).
+      apply (IH used lvL lvR g w1 c I1 T1 (Dom_frame _ _ _ _ _ _ O1 D) HF H).
+Qed.
+
+Theorem algo_out_of_fragment_guards t0 lg0 acts c :
+  lg0 <= t0 + 1 -> in_F1 (cfg_std 1) (history_of acts) = true ->
+  algo_run (world_init (cfg_std 1) t0 lg0) acts = OutOfFragment c -> In c G_SYNC.
+Proof.
+  intros Hlg HF H. unfold in_F1, in_F in HF. cbn in HF.
+  apply (run_guards acts [] [] [] g0 _ c (init_inv t0 lg0 Hlg) (NoTmp_init _ _ _) (Dom_init _ _ _) HF H).
 Qed.
